@@ -298,6 +298,14 @@ func runC12(c *core.Ctx) {
 	importObligations(c, runC13, "R7", func(o *core.Obligation) bool { return strings.Contains(o.Key, "holder/closeall") })
 	importObligations(c, runC05, "R1", func(o *core.Obligation) bool { return strings.Contains(o.Key, "closed-access/") })
 	importObligations(c, runC02, "R1", func(o *core.Obligation) bool { return strings.Contains(o.Key, "flag-access/") })
+	// two senders at once share the batch and the unsynchronised transport writer
+	importObligations(c, runC02, "R5", func(o *core.Obligation) bool { return o.Rule == "R8" })
+	// the synchronous write path: write AND flush inside the write lock (the bufio writer is not safe otherwise)
+	c.Rule("R8", "synchronous transport writes and their flush run under the write lock (shared with C01-R5)", 1)
+	importObligations(c, runC01, "R8", func(o *core.Obligation) bool { return o.Rule == "R5" })
+	// one pooled buffer handed to two owners is written by both
+	c.Rule("R9", "a pooled buffer has one owner: not recycled while queued, not recycled twice (shared with C10-R1/R4/R6)", 2)
+	importObligations(c, runC10, "R9", func(o *core.Obligation) bool { return o.Rule == "R1" || o.Rule == "R4" || o.Rule == "R6" })
 }
 
 func rw(w bool) string {
